@@ -41,20 +41,31 @@ func straceOnce(real, dir string, sc *c12Scenario, call, inject string) (survive
 }
 
 func runC12Strace(f *common.Flags, res *common.Result, real string) {
+	n := straceSweep(f, res, real)
+	if n >= 0 {
+		res.Rule = fmt.Sprintf("FALLBACK (os-shim rewrite not applicable): %d runs of a Put under strace -e inject (real SIGKILL at the k-th call of each file system call, per thread; EIO at the k-th) on the unmodified binary, lookups afterwards in a fresh process checked with the direct oracles only; no model comparison", n)
+	}
+}
+
+// straceSweep kills (SIGKILL) or fails (EIO) the worker built from the UNMODIFIED package at the
+// k-th invocation of each file system call of a Put (strace counts per thread and per system
+// call: the worker keeps its file operations on one locked thread), then checks the direct
+// oracles in a fresh process.  It returns the number of runs, -1 when it could not run.
+func straceSweep(f *common.Flags, res *common.Result, real string) int {
 	if real == "" {
-		res.Notes = append(res.Notes, "no worker binary: C12 could not run")
-		return
+		res.Notes = append(res.Notes, "no worker binary: the strace sweep could not run")
+		return -1
 	}
 	if _, err := exec.LookPath("strace"); err != nil {
-		res.Notes = append(res.Notes, "strace is not available: C12 fallback could not run")
-		return
+		res.Notes = append(res.Notes, "strace is not available: the strace sweep could not run")
+		return -1
 	}
 	dir := filepath.Join(f.Work, "c12strace")
 	os.MkdirAll(dir, 0o777)
 	lw, err := startWorker(real)
 	if err != nil {
 		res.Notes = append(res.Notes, "cannot start worker: "+err.Error())
-		return
+		return -1
 	}
 	defer lw.close()
 	lw.call(map[string]any{"cmd": "open", "dir": dir})
@@ -81,11 +92,11 @@ func runC12Strace(f *common.Flags, res *common.Result, real string) {
 					survived, err := straceOnce(real, dir, sc, call, fmt.Sprintf("%s:when=%d", mode, k))
 					if err != nil {
 						res.Notes = append(res.Notes, "strace could not run: "+err.Error())
-						return
+						return n
 					}
 					lk, err := lw.call(map[string]any{"cmd": "lookups", "ids": []string{idHex(0), idHex(1), idHex(2), idHex(3)}})
 					if err != nil {
-						return
+						return n
 					}
 					n++
 					res.Case(fmt.Sprintf("%s:%s:%s:%d", sc.Name, mode, call, k), true)
@@ -113,5 +124,5 @@ func runC12Strace(f *common.Flags, res *common.Result, real string) {
 			}
 		}
 	}
-	res.Rule = fmt.Sprintf("FALLBACK (os-shim rewrite not applicable): %d runs of a Put under strace -e inject (SIGKILL at the k-th file system call; EIO at the k-th) on the unmodified binary, lookups afterwards in a fresh process checked with the direct oracles only; no model comparison", n)
+	return n
 }
